@@ -60,7 +60,10 @@ type Conn struct {
 	// Transients are stream offsets (bytes read so far) at which ONE Read fails with a timeout error although the
 	// stream goes on afterwards (ascending).
 	Transients []int
-	consumed   int
+	// TransientEOF: the failing reads return (0, io.EOF) instead of a timeout error - a reader that reports "no
+	// data right now" the way the library's retry loop expects it.
+	TransientEOF bool
+	consumed     int
 	// PeerStalled: the peer has stopped reading. Writes still succeed while fewer than SendWindow bytes are
 	// unread (socket buffers), then they block.
 	PeerStalled  bool
@@ -244,8 +247,12 @@ func (n *Net) grantRead(t *Task) string {
 	if len(c.Transients) > 0 && c.Transients[0] <= c.consumed {
 		// a transient failure: this one Read fails, the stream goes on afterwards
 		c.Transients = c.Transients[1:]
-		t.resp.err = ErrIOTimeout
 		n.s.Fault("read-transient-error")
+		if c.TransientEOF {
+			t.resp.err = io.EOF
+			return "transient EOF"
+		}
+		t.resp.err = ErrIOTimeout
 		return "transient timeout"
 	}
 	if len(c.inbox) > 0 {
